@@ -19,6 +19,26 @@ CHECKS = {
   text="For every square and every 64-bit occupancy the table lookups (PEXT index into the generated real tables) equal the ray semantics: PEXT/PDEP algebra proved by induction over 64 bit positions, mask lemma, and a kernel-evaluated reflection over all 107,648 table entries and the 4x64 leaper entries. Gen/Tables.v is the build output itself, regenerated on every run; the real getters (real _pext_u64) are compared with the extracted specification on table indices and random occupancies.",
   note=TB + " Intel's definitions of PEXT/PDEP/POPCNT are taken as given (Model/Bits.v).",
   tech="Coq proof (induction + reflection over the complete generated table) + engine/spec correspondence", ref="DESIGN.md 6 C15"),
+ 'C01': dict(
+  text="Proved in Coq for ALL positions (no well-formedness assumption): the engine's two legality paths (filter generated moves with is_legal / try make_search_move and reject) accept exactly the same moves for both generators, and every generated en-passant move carries the capture flag. The full exactness statement w.r.t. the rules (C01_full, visible in Props/C01.v, not assumed) is decided on every run: a rules-of-chess specification written in Coq (Spec/ChessSpec.v) is extracted and its monitors (no duplicates, same set as the rules' legal moves over all candidate moves, capture-only generator = legal captures, in-check flag) judge the real engine's answers on seed families + playouts + mirrors; model = engine on the same positions (generation order, both legality paths).",
+  note=TB + " PARTIAL: exactness for every legal position is not yet a theorem; it is checked by the extracted specification on generated positions (differential, not exhaustive). MoveList capacity 256 (`fits`) is a modelled boundary.",
+  tech="Coq proof (legality paths agree, all positions) + extracted rules-of-chess monitor on engine answers", ref="DESIGN.md 6 C01"),
+ 'C02': dict(
+  text="Proved in Coq for every position and every made move: side to move, half-move clock (u8 wrap explicit), full-move number (u16 wrap explicit), castling-rights mask and en-passant target after make_search_move. Placement and redundant sets (C02_full, visible, not assumed) are decided per run: the extracted monitor mon_make compares every successor the engine produces with Spec.apply on the 64-cell board and checks occupancy = unions, disjointness, one king per side; model = engine on all 21 fields of every successor.",
+  note=TB + " PARTIAL: placement refinement is checked on generated positions, not proved for all.",
+  tech="Coq proof (scalar fields, all positions) + extracted Spec.apply monitor on engine successors", ref="DESIGN.md 6 C02"),
+ 'C04': dict(
+  text="Proved in Coq: the compiled key tables (all 849 entries, dumped by the driver) equal the model's recomputation from the seeds in the source; no zero, no repeated entry, no set of 1..4 distinct entries XORs to zero (kernel-evaluated reflection over the keys and their 359,976 pairwise XORs, lifted by lemmas); the from-scratch key is a function of placement/side/rights/ep only; the null move keeps stored key = recomputed key. The incremental update through make (C04_incremental_full, visible, not assumed) is decided per run on the engine itself (stored key vs its own from-scratch key after every move of every generated position) and by model = engine on both keys.",
+  note=TB + " PARTIAL: incremental-update theorem not yet proved for all legal moves.",
+  tech="Coq proof (reflection over the complete key tables + XOR algebra) + engine self-consistency stream", ref="DESIGN.md 6 C04"),
+ 'C14': dict(
+  text="Proved in Coq for all positions and depths: the perft total is independent of the reduction schedule (any permutation and any bracketing of the per-move sub-counts, which is all rayon's sum may vary) and the depth-1 bulk count equals the make-path count. Exactness (C14_full, visible, not assumed) is decided per run: engine perft 1-2 on every generated position and perft 3 on seeds vs the extracted Spec.perft, and perft 3 under RAYON_NUM_THREADS in {1,2,16} (1..16 thorough) must agree.",
+  note=TB + " Data-race freedom is Rust's type system (trusted). PARTIAL: exactness inherits C01/C02's status.",
+  tech="Coq proof (schedule independence) + extracted Spec.perft on engine counts, thread sweep", ref="DESIGN.md 6 C14"),
+ 'C16': dict(
+  text="Proved in Coq for every position: evaluate depends only on the piece sets (and their redundant unions) and the side to move, is negated when only the side to move is switched, and ignores castling rights, en-passant square, clocks and key. Mirror symmetry and the bound below the mate range (C16_bound_full visible, not assumed) are decided per run by the metamorphic relations on the real engine for every generated legal position (mirror, side flip, field perturbation, bound), and engine = model on all of them.",
+  note=TB + " PARTIAL: mirror symmetry and bound are not yet theorems (mirror symmetry needs the hypothesis 'no pawn on back ranks', see DESIGN.md).",
+  tech="Coq proof (purity, side antisymmetry) + metamorphic stream on the engine", ref="DESIGN.md 6 C16"),
 }
 
 def main():
